@@ -16,7 +16,8 @@ import time
 VERIF = os.path.dirname(os.path.dirname(os.path.abspath(__file__)))
 REPO = os.environ.get('VERIF_REPO', '/repo')
 CACHE = os.environ.get('VERIF_CACHE', '/var/tmp/verif-cache')
-KEEP = 3
+KEEP = 24          # entries are ~5 MB each
+MIN_AGE_S = 12 * 3600      # never evict an entry used in the last 12 hours (a concurrent run may be reading it)
 
 
 def _hash_tree():
@@ -57,8 +58,15 @@ def _evict(keep_key):
     except FileNotFoundError:
         return
     ents.sort(key=lambda d: os.path.getmtime(os.path.join(CACHE, d)), reverse=True)
+    now = time.time()
     for d in ents[KEEP - 1:]:
+        if now - os.path.getmtime(os.path.join(CACHE, d)) < MIN_AGE_S:
+            continue
         shutil.rmtree(os.path.join(CACHE, d), ignore_errors=True)
+        try:
+            os.unlink(os.path.join(CACHE, d + '.lock'))
+        except OSError:
+            pass
 
 
 class Artefacts:
